@@ -21,6 +21,7 @@ from .. import c06_tr, c06_complete, c06_green, c06_oracle as O
 from ..core import TranslateError, clist, cnat, cnats, cints, cz, np_seed
 
 TOL = 1e-8
+SUBSET_KEY = 'project:subset-argument-on-unrestricted-basis'
 
 IMPORTS = ('From Coq Require Import List ZArith Bool Arith.\n'
            'Require Import Base.C05_Np Model.C05_BC Model.C06_Galerkin Gen.C06Gen.')
@@ -297,6 +298,20 @@ def _oracle(ctx):
                              ('boundary-arg', lambda: O.projection_boundary(m, elem, rng, explicit=True)),
                              ('boundary-collection', lambda: O.projection_boundary(m, elem, rng, collection=True)),
                              ('boundary-collection-arg', lambda: O.projection_boundary(m, elem, rng, explicit=True, collection=True))]
+                # the subset ARGUMENT on unrestricted bases, arbitrary function of the space (one stable key)
+                for facet in ((False, True) if kind not in ('line', 'wedge') else (False,)):
+                    if m.t.shape[1] < 2:
+                        continue
+                    r = _guard(ctx, SUBSET_KEY, {'mesh': desc}, lambda: O.projection_subset_argument(m, elem, rng, facet=facet))
+                    if r is None:
+                        continue
+                    err, info = r
+                    ctx.count((SUBSET_KEY, desc, info), nontrivial=True)
+                    stats['subset_argument'] = max(stats.get('subset_argument', 0.0), err)
+                    if not (err <= TOL):
+                        ctx.fail(SUBSET_KEY, f'project(f, {"facets" if facet else "elements"}=subset) on a basis over the whole '
+                                 f'{"boundary" if facet else "mesh"} does not return the function f of the space on the subset (error {err:.2e}): M and f '
+                                 'are assembled over everything and only then condensed', {'mesh': desc, 'info': info, 'error': err})
                 for what, fn in runs:
                     key = f'project:{what}:{kind}:{type(elem).__name__}'
                     r = _guard(ctx, key, {'mesh': desc}, fn)
